@@ -8,10 +8,11 @@ import H2.Proofs.FrameWrite
   against the real code on every check (correspondence).
 * `H2.Frame.Spec.parse` / `sendWF` (Frame/Spec.lean) is the RFC 7540 §4.1/§6 grammar, written with the RFC's numbers.
 
-Read side: full theorem. Write side: full statement `C05_write_full`, proved for everything except the known
-finding F14 (PUSH_PROMISE writer), for which the model exhibits the failure (`*_witness`). F35 (SETTINGS values of
-zero could not be written) is repaired: SETTINGS frames are covered in full (`write_wf_settings`) and the former
-witnesses are kept as regression examples.
+Read side: full theorem. Write side: full theorem too (`write_wf`, `C05_write_full_proved`). F14 (the PUSH_PROMISE
+writer wrote no promised stream id, END_HEADERS or padding) is repaired: PUSH_PROMISE frames are covered like every
+other type, with every promised id `SetStream` accepts (`write_wf_pushPromise`), and the former witnesses are kept as
+regression examples of the repaired layout. F35 (SETTINGS values of zero could not be written) is repaired: SETTINGS
+frames are covered in full (`write_wf_settings`) and the former witnesses are kept as regression examples.
 -/
 namespace H2.Props.C05
 open H2 H2.Frame
@@ -68,24 +69,60 @@ def C05_write_full : Prop :=
         .frame ⟨w.typ, (serialize 0 pad w).1, stream, (serialize 0 pad w).2.length, bd⟩ [] ∧
       sameBody bd w.want = true
 
-/-- **write_wf** (partial): the full statement for every frame outside the known-finding class F14 -/
-theorem write_wf_partial (stream pad : Nat) (w : WFrame) (hr : InRange w) (hp : PadOk pad) (hs : stream < 2 ^ 31)
-    (hsz : (serialize 0 pad w).2.length < 2 ^ 24) (hso : Spec.streamOk w.typ stream = true)
-    (h14 : ¬ IsPushPromise w) :
+/-- **write_wf**: every frame value the public API can build — all ten types, PUSH_PROMISE included — with every pad
+length `AddPadding` can draw, is written as exactly one RFC 7540 frame a conforming sender may emit, and the RFC grammar
+reads the caller's fields back from it -/
+theorem write_wf (stream pad : Nat) (w : WFrame) (hr : InRange w) (hp : PadOk pad) (hs : stream < 2 ^ 31)
+    (hsz : (serialize 0 pad w).2.length < 2 ^ 24) (hso : Spec.streamOk w.typ stream = true) :
     Spec.sendWF (write 0 stream pad w) = true ∧
     ∃ bd, Spec.parse 0 (write 0 stream pad w) =
         .frame ⟨w.typ, (serialize 0 pad w).1, stream, (serialize 0 pad w).2.length, bd⟩ [] ∧
       sameBody bd w.want = true :=
-  have hB := buildable_of w hr h14
+  have hB := buildable_of w hr
   ⟨write_sendwf stream pad w hB hp hs hsz hso, write_parse stream pad w hB hp hs hsz⟩
 
-/-- F14: a PUSH_PROMISE built through the API with a 2-octet header block is written as a malformed frame … -/
-theorem write_wf_witness_F14 : Spec.parse 0 (write 0 1 0 (.pushPromise [130, 134])) = .malformed 1 := by decide
+/-- the full write-side statement holds -/
+theorem C05_write_full_proved : C05_write_full := write_wf
 
-/-- … and with a longer block the first four octets of the block are read as the promised stream -/
-theorem write_wf_witness_F14' :
-    Spec.parse 0 (write 0 1 0 (.pushPromise [130, 134, 132, 65, 138])) =
-      .frame ⟨5, 0, 1, 5, .pushPromise 42370113 false [138]⟩ [] := by decide
+/-- **write_wf for PUSH_PROMISE, spelled out** (F14 repaired): whatever promised id `SetStream` was handed (any uint32),
+END_HEADERS on or off, padding off or of any length `AddPadding` draws, any header block fragment — the frame written
+is one a conforming sender may emit (reserved bit of the promised id clear, padding zero) and the RFC grammar reads
+back the 31-bit promised id, END_HEADERS and exactly the caller's fragment. -/
+theorem write_wf_pushPromise (stream pad pr : Nat) (eh : Bool) (h : Bytes) (hpr : pr < 2 ^ 32) (hh : WF h) (hp : PadOk pad)
+    (hs : stream < 2 ^ 31) (hs0 : stream ≠ 0) (hsz : (serialize 0 pad (.pushPromise pr eh h)).2.length < 2 ^ 24) :
+    Spec.sendWF (write 0 stream pad (.pushPromise pr eh h)) = true ∧
+    Spec.parse 0 (write 0 stream pad (.pushPromise pr eh h)) =
+      .frame ⟨5, (serialize 0 pad (.pushPromise pr eh h)).1, stream, (serialize 0 pad (.pushPromise pr eh h)).2.length,
+              .pushPromise (pr % 2 ^ 31) eh h⟩ [] := by
+  obtain ⟨h1, bd, h2, h3⟩ := write_wf stream pad (.pushPromise pr eh h) ⟨hpr, hh⟩ hp hs hsz
+    (by simp [WFrame.typ, Gen.c_FramePushPromise, Spec.streamOk, hs0])
+  refine ⟨h1, ?_⟩
+  cases bd <;> simp [sameBody, WFrame.want] at h3
+  obtain ⟨rfl, rfl, rfl⟩ := h3
+  exact h2
+
+/-- F14, the recorded witness, now a regression example: a PUSH_PROMISE with a 2-octet header block (it used to be
+written as a malformed frame) is written with its promised id in front and parses back to that id and that block … -/
+theorem write_pushPromise_regression :
+    write 0 1 0 (.pushPromise 2 true [130, 134]) = [0, 0, 6, 5, 4, 0, 0, 0, 1, 0, 0, 0, 2, 130, 134] ∧
+    Spec.parse 0 (write 0 1 0 (.pushPromise 2 true [130, 134])) = .frame ⟨5, 4, 1, 6, .pushPromise 2 true [130, 134]⟩ [] ∧
+    Spec.sendWF (write 0 1 0 (.pushPromise 2 true [130, 134])) = true := by decide
+
+/-- … and with a longer block (its first four octets used to be read as the promised stream 42370113) the whole
+block is the fragment -/
+theorem write_pushPromise_regression' :
+    Spec.parse 0 (write 0 1 0 (.pushPromise 2 false [130, 134, 132, 65, 138])) =
+      .frame ⟨5, 0, 1, 9, .pushPromise 2 false [130, 134, 132, 65, 138]⟩ [] := by decide
+
+/-- the reserved bit of the promised id is never written: an id with bit 31 set goes out as its low 31 bits -/
+theorem write_pushPromise_reserved_clear :
+    write 0 3 0 (.pushPromise (2 ^ 31 + 7) false []) = [0, 0, 4, 5, 0, 0, 0, 0, 3, 0, 0, 0, 7] ∧
+    write 0 3 0 (.pushPromise (2 ^ 32 - 1) false []) = [0, 0, 4, 5, 0, 0, 0, 0, 3, 127, 255, 255, 255] := by decide
+
+/-- padding: pad-length octet, promised id, fragment, that many zero octets; PADDED and END_HEADERS set -/
+theorem write_pushPromise_padded :
+    write 0 1 9 (.pushPromise 2 true [130]) = [0, 0, 15, 5, 12, 0, 0, 0, 1, 9, 0, 0, 0, 2, 130, 0, 0, 0, 0, 0, 0, 0, 0, 0] ∧
+    Spec.parse 0 (write 0 1 9 (.pushPromise 2 true [130])) = .frame ⟨5, 12, 1, 15, .pushPromise 2 true [130]⟩ [] := by decide
 
 /-- a SETTINGS payload is at most six pairs -/
 theorem settings_payload_le (pad : Nat) (ack push : Bool) (ts ms ws fs hs : Nat) :
@@ -106,9 +143,9 @@ theorem write_wf_settings (pad : Nat) (ack push : Bool) (ts ms ws fs hs : Nat)
         .frame ⟨4, (serialize 0 pad (.settings ack ts push ms ws fs hs)).1, 0,
                 (serialize 0 pad (.settings ack ts push ms ws fs hs)).2.length, bd⟩ [] ∧
       sameBody bd (WFrame.settings ack ts push ms ws fs hs).want = true :=
-  write_wf_partial 0 pad _ hr hp (by omega)
+  write_wf 0 pad _ hr hp (by omega)
     (Nat.lt_of_le_of_lt (settings_payload_le pad ack push ts ms ws fs hs) (by omega))
-    (by simp [WFrame.typ, Gen.c_FrameSettings, Spec.streamOk]) (by simp [IsPushPromise])
+    (by simp [WFrame.typ, Gen.c_FrameSettings, Spec.streamOk])
 
 /-- F35, the recorded witness, now a regression example: HEADER_TABLE_SIZE = 0 is written (with ENABLE_PUSH = 0 beside
 it) and a reader is left with a table of 0 octets, not the initial 4096 -/
@@ -132,14 +169,13 @@ theorem encode_unset_zero_left_out :
                      hasWindowSize := true, hasPush := true } =
       [0, 2, 0, 0, 0, 0, 0, 4, 0, 16, 0, 0] := by decide
 
-/-- F14 is the only obstacle left: the full statement follows once its class is empty -/
-theorem write_full_of_no_findings (h : ∀ w, ¬ IsPushPromise w) : C05_write_full :=
-  fun stream pad w hr hp hs hsz hso => write_wf_partial stream pad w hr hp hs hsz hso (h w)
-
 /-! non-vacuity -/
-example : InRange (.data true [104, 105]) ∧ PadOk 9 ∧ ¬ IsPushPromise (.data true [104, 105]) ∧
-    Spec.streamOk (WFrame.data true [104, 105]).typ 1 = true := by
-  refine ⟨by unfold InRange; decide, Or.inr ⟨by omega, by omega⟩, by simp [IsPushPromise], by decide⟩
+example : InRange (.data true [104, 105]) ∧ PadOk 9 ∧ Spec.streamOk (WFrame.data true [104, 105]).typ 1 = true := by
+  refine ⟨by unfold InRange; decide, Or.inr ⟨by omega, by omega⟩, by decide⟩
+example : InRange (.pushPromise (2 ^ 32 - 1) true [130, 134]) ∧ PadOk 255 ∧
+    (serialize 0 255 (.pushPromise (2 ^ 32 - 1) true [130, 134])).2.length < 2 ^ 24 ∧
+    Spec.streamOk (WFrame.pushPromise (2 ^ 32 - 1) true [130, 134]).typ 1 = true := by
+  refine ⟨⟨by omega, by unfold WF; decide⟩, Or.inr ⟨by omega, by omega⟩, by decide +kernel, by decide⟩
 example : write 0 1 9 (.data true [104, 105]) = [0, 0, 12, 0, 9, 0, 0, 0, 1, 9, 104, 105, 0, 0, 0, 0, 0, 0, 0, 0, 0] := by decide
 example : Spec.parse 16384 [0, 0, 12, 0, 9, 128, 0, 0, 1, 9, 104, 105, 1, 2, 3, 4, 5, 6, 7, 8, 9, 77] =
     .frame ⟨0, 9, 1, 12, .data true [104, 105]⟩ [77] := by decide
